@@ -1,12 +1,17 @@
 (* engine c08: drives coq/Links.v (link resolution over a world of TreeDB files) with the script language of
    harness/c08_cgio.c.  Sys.argv.(1) = adf | hdf5 selects the transcription.  Trusted glue: handle table
    (file number -> path), printing.  A model result [EStack] / a non-returning close prints "crash" and stops, as
-   the process under test would. *)
+   the process under test would (possible with the Old transcription only; for Cur it is proved unreachable for
+   resolutions). *)
 open Model
 open Zutil
 
 let zi s = z_of_int (int_of_string s)
-let fuel = nat_of_int 48          (* nesting of chase <-> get_node_id; the generator stays far below *)
+(* Sys.argv.(2) = "old" runs the transcription of the code before the repairs (historical witnesses only) *)
+let ver = if Array.length Sys.argv > 2 && Sys.argv.(2) = "old" then Old else Cur
+(* nesting of chase <-> get_node_id: the current code allows exactly ADF_MAXIMUM_LINK_DEPTH activations; for the old
+   code the number stands for the C stack *)
+let fuel = nat_of_int (match ver with Cur -> 100 | Old -> 48)
 let cfuel = nat_of_int 64         (* nesting of ADFI_close_file *)
 
 let str_of_hex h = if h = "-" then "" else String.init (String.length h / 2) (fun i -> Char.chr (int_of_string ("0x" ^ String.sub h (2*i) 2)))
@@ -35,17 +40,17 @@ let run () =
   let mutate f o =
     if not (is_open f) then print_string "err other\n" else
     let p = Hashtbl.find paths f in
-    if adf then (let (s', r) = adf_mutate !st p o in st := s'; pr_res r)
+    if adf then (let (s', r) = adf_mutate ver !st p o in st := s'; pr_res r)
     else (let (d', r) = h5_mutate !st.a_disk p o in set_disk d'; pr_res r) in
   let get (i : z list * z) (w:int) : result =
-    if adf then (let (s', a) = adf_read fuel !st i (z_of_int w) in st := s';
+    if adf then (let (s', a) = adf_read ver fuel !st i (z_of_int w) in st := s';
                  match a with AVal r -> r | AErr e -> failwith (eclass e))
-    else (match h5_get !st.a_disk i (z_of_int w) with AVal r -> r | AErr e -> failwith (eclass e)) in
+    else (match h5_get ver !st.a_disk i (z_of_int w) with AVal r -> r | AErr e -> failwith (eclass e)) in
   let lookup i path =
-    if adf then (let (s', r) = adf_lookup fuel !st i path in st := s'; match r with Ok j -> j | Err e -> failwith (eclass e))
-    else (match h5_lookup !st.a_disk i path with Ok j -> j | Err e -> failwith (eclass e)) in
+    if adf then (let (s', r) = adf_lookup ver fuel !st i path in st := s'; match r with Ok j -> j | Err e -> failwith (eclass e))
+    else (match h5_lookup ver !st.a_disk i path with Ok j -> j | Err e -> failwith (eclass e)) in
   let close_file f =
-    if adf then (match adf_close cfuel !st (Hashtbl.find paths f) with
+    if adf then (match adf_close ver cfuel !st (Hashtbl.find paths f) with
                  | None -> raise Crash
                  | Some (s', r) -> st := s'; Hashtbl.replace opened f false; r)
     else (Hashtbl.replace opened f false; ROk) in
